@@ -1,0 +1,75 @@
+//go:build verif
+
+package scipipe
+
+import (
+	"fmt"
+	"math/rand"
+	"os"
+	"strconv"
+	"strings"
+	"sync"
+	"syscall"
+	"time"
+)
+
+var (
+	verifMx      sync.Mutex
+	verifInit    bool
+	verifLog     *os.File
+	verifCrashAt string
+	verifCrashN  int
+	verifHits    = map[string]int{}
+	verifYield   int
+	verifRand    *rand.Rand
+)
+
+func verifSetup() {
+	verifInit = true
+	if p := os.Getenv("SCIPIPE_VERIF_LOG"); p != "" {
+		f, err := os.OpenFile(p, os.O_APPEND|os.O_CREATE|os.O_WRONLY, 0644)
+		if err == nil {
+			verifLog = f
+		}
+	}
+	if c := os.Getenv("SCIPIPE_VERIF_CRASH"); c != "" {
+		i := strings.LastIndex(c, ":")
+		verifCrashAt = c[:i]
+		verifCrashN, _ = strconv.Atoi(c[i+1:])
+	}
+	if y := os.Getenv("SCIPIPE_VERIF_YIELD"); y != "" {
+		parts := strings.Split(y, ":")
+		seed, _ := strconv.Atoi(parts[0])
+		verifYield, _ = strconv.Atoi(parts[1])
+		verifRand = rand.New(rand.NewSource(int64(seed)))
+	}
+}
+
+// verifPoint logs an event, optionally delays, optionally kills the process group
+func verifPoint(name string, keys ...string) {
+	verifMx.Lock()
+	if !verifInit {
+		verifSetup()
+	}
+	verifHits[name]++
+	n := verifHits[name]
+	if verifLog != nil {
+		fmt.Fprintf(verifLog, "%d %s %d %s\n", time.Now().UnixNano(), name, n, strings.Join(keys, " "))
+	}
+	crash := verifCrashAt == name && verifCrashN == n
+	delay := 0
+	if verifYield > 0 {
+		delay = verifRand.Intn(verifYield)
+	}
+	verifMx.Unlock()
+	if crash {
+		if verifLog != nil {
+			verifLog.Sync()
+		}
+		syscall.Kill(-syscall.Getpgrp(), syscall.SIGKILL)
+		time.Sleep(time.Hour)
+	}
+	if delay > 0 {
+		time.Sleep(time.Duration(delay) * time.Microsecond)
+	}
+}
